@@ -9,11 +9,28 @@ def render_lines(text, rnd=None, layout=0, cond_expr=False, lits=None):
     widths = {0: [2] * 8, 1: [4] * 8, 2: [1] * 8}.get(layout)
     if widths is None:
         widths = [rnd.choice([1, 2, 3, 4]) for _ in range(8)]
+    indents = None
+    if layout == 4:
+        # the children of one parent share one indentation, but every parent chooses its own width:
+        # "the number of empty spaces for each indentation level can vary, as long as indentation of
+        # all children nodes is consistent"
+        indents, stack = [], []          # stack of [level, indent string, width chosen for its children]
+        for ln in text:
+            while stack and stack[-1][0] >= ln["ind"]:
+                stack.pop()
+            if ln["ind"] == 0 or not stack:
+                s = "" if ln["ind"] == 0 else " " * (2 * ln["ind"])
+            else:
+                if stack[-1][2] is None:
+                    stack[-1][2] = rnd.choice([1, 2, 3, 4, 6])
+                s = stack[-1][1] + " " * stack[-1][2]
+            indents.append(s)
+            stack.append([ln["ind"], s, None])
     out = []
     if cond_expr:
         out.append("zz int = 1")
-    for ln in text:
-        ind = " " * sum(widths[:ln["ind"]])
+    for j_, ln in enumerate(text):
+        ind = indents[j_] if indents is not None else " " * sum(widths[:ln["ind"]])
         k = ln["k"]
         name = ".".join(ln["nm"])
         if k == "grp":
